@@ -355,7 +355,7 @@ def gen_ctx(s, allowed):
     if k == "fail":
         a = s.pick([None, 1, 2, 3])
         b = s.pick([None, 1, 2]) if a is not None else s.pick([1, 2, 3])
-        return ["fail", s.cid(), a, b]
+        return ["fail", s.cid(), a, b, s.chance(4)]
     raise AssertionError(k)
 
 
